@@ -1,0 +1,15 @@
+//go:build verif
+
+package responseassembler
+
+import "github.com/libp2p/go-libp2p/core/peer"
+
+// VerifTrackerIdle reports whether the link tracking state kept for peer p is completely empty
+// (verification-only accessor, compiled only with the verif build tag).
+func (ra *ResponseAssembler) VerifTrackerIdle(p peer.ID) bool {
+	prs := ra.GetProcess(p).(*peerLinkTracker)
+	prs.linkTrackerLk.RLock()
+	defer prs.linkTrackerLk.RUnlock()
+	return prs.linkTracker.Empty() && len(prs.altTrackers) == 0 && len(prs.dedupKeys) == 0 &&
+		len(prs.blockSentCount) == 0 && len(prs.skipFirstBlocks) == 0
+}
